@@ -294,3 +294,87 @@ Theorem c13_farg_sample :
                     (Q "" "InResponseTo", "id-1"%string); (Q "" "Address", "192.0.2.7"%string)] ""%string []]]).
 Proof. exact sample_fa_built. Qed.
 Print Assumptions c13_farg_sample.
+
+(* ---- round 5: which assertion ends up in an EncryptedAssertion (Entity._response and the argument gathering of
+   Server), and the eduPersonTargetedID attribute (AttributeConverter.to_eptid_value) ---- *)
+From Verif Require Import C13.Release C13.ReleaseProofs.
+
+(* for EVERY combination of entry, metadata, call arguments, configuration and configured verifiers: an assertion is
+   moved into an EncryptedAssertion only when _encrypt_assertion is going to find a certificate for it *)
+Theorem c13_enc_no_clear_wrapper :
+  forall a m v, enc_plan a = Some (m, v) -> m <> SWrapped /\ v <> Some SWrapped.
+Proof. exact enc_plan_no_clear_wrapper. Qed.
+Print Assumptions c13_enc_no_clear_wrapper.
+
+(* ... which is what the schema demands: an EncryptedAssertion without EncryptedData is invalid whatever else it holds *)
+Theorem c13_clear_wrapper_invalid :
+  forall tag attrs text kids,
+    existsb (has_tag XENC_NS "EncryptedData") kids = false ->
+    valid live_table (CK k_saml_EncryptedAssertion) (Node tag attrs text kids) = false.
+Proof. exact clear_wrapper_invalid. Qed.
+Print Assumptions c13_clear_wrapper_invalid.
+
+(* the assertion is encrypted exactly when asked for and there is a certificate for THE ASSERTION; the one inside the
+   Advice exactly when there is one for THE ADVICE *)
+Theorem c13_enc_main :
+  forall a e d m v, gathered a = Some (e, d) -> enc_plan a = Some (m, v) ->
+                    m = if e && (ea_md a || eff_cert_ass a) then SEnc else SClear.
+Proof. exact enc_plan_main. Qed.
+Print Assumptions c13_enc_main.
+
+Theorem c13_enc_advice :
+  forall a e d m v, gathered a = Some (e, d) -> enc_plan a = Some (m, v) ->
+                    v = if eff_pefim a then Some (if d && (ea_md a || eff_cert_adv a) then SEnc else SClear) else None.
+Proof. exact enc_plan_advice. Qed.
+Print Assumptions c13_enc_advice.
+
+(* the two guards are independent: the other certificate changes nothing *)
+Theorem c13_enc_main_independent_of_advice_cert :
+  forall a b m v m' v', enc_plan a = Some (m, v) -> enc_plan (with_cert_adv a b) = Some (m', v') -> m' = m.
+Proof. exact enc_main_independent_of_advice_cert. Qed.
+Print Assumptions c13_enc_main_independent_of_advice_cert.
+
+Theorem c13_enc_advice_independent_of_assertion_cert :
+  forall a b m v m' v', enc_plan a = Some (m, v) -> enc_plan (with_cert_ass a b) = Some (m', v') -> v' = v.
+Proof. exact enc_advice_independent_of_assertion_cert. Qed.
+Print Assumptions c13_enc_advice_independent_of_assertion_cert.
+
+Theorem c13_enc_sample :
+  enc_plan (sample_enc false) = Some (SClear, None) /\ enc_plan (sample_enc true) = Some (SEnc, None).
+Proof. exact sample_enc_plans. Qed.
+Print Assumptions c13_enc_sample.
+
+(* eduPersonTargetedID: the NameID written into the AttributeValue has Format = persistent and, beyond that, the two
+   qualifiers only; the Attribute element is valid for every value the converter accepts, and it accepts every value
+   of the documented form *)
+Theorem c13_eptid_nameid_shape :
+  forall v t, ept_nameid v = Some t ->
+              root_tag t = qa "NameID" /\ root_kids t = []
+              /\ forallb (fun kv => qmem (fst kv) ept_allowed) (root_attrs t) = true
+              /\ attr_value (Q "" "Format") t = Some NAMEID_FORMAT_PERSISTENT.
+Proof. exact ept_nameid_shape. Qed.
+Print Assumptions c13_eptid_nameid_shape.
+
+Theorem c13_eptid_attribute_valid :
+  forall a o, ept_attribute a = Some o -> valid live_table (CK k_saml_Attribute) (to_tree live_table o) = true.
+Proof. exact ept_attribute_valid. Qed.
+Print Assumptions c13_eptid_attribute_valid.
+
+Theorem c13_eptid_attribute_total :
+  forall a, forallb ept_documented (ept_list (ep_in a)) = true -> exists o, ept_attribute a = Some o.
+Proof. exact ept_attribute_total. Qed.
+Print Assumptions c13_eptid_attribute_total.
+
+Theorem c13_eptid_sample :
+  ept_tree sample_ept =
+  Some (Node (qa "Attribute")
+          [(Q "" "Name", EPTID_OID); (Q "" "NameFormat", "urn:oasis:names:tc:SAML:2.0:attrname-format:uri"%string);
+           (Q "" "FriendlyName", "eduPersonTargetedID"%string)] ""%string
+          [Node (qa "AttributeValue") [] ""%string
+             [Node (qa "NameID") [(Q "" "Format", NAMEID_FORMAT_PERSISTENT)] "opaque-1"%string []];
+           Node (qa "AttributeValue") [] ""%string
+             [Node (qa "NameID") [(Q "" "Format", NAMEID_FORMAT_PERSISTENT);
+                                  (Q "" "NameQualifier", "https://idp.example.org"%string);
+                                  (Q "" "SPNameQualifier", "https://sp.example.org"%string)] "opaque-2"%string []]]).
+Proof. exact sample_ept_built. Qed.
+Print Assumptions c13_eptid_sample.
